@@ -36,3 +36,12 @@ Fixpoint protocol_ok_run_t (s : st) (ops : list op_t) : bool :=
   | [] => true
   | o :: ops' => protocol_ok_t s o && protocol_ok_run_t (apply_op_t s o) ops'
   end.
+
+(* the hold protocol of inv_b for the alphabet with trees *)
+Definition protocol_hold_t_b (s : st) (o : op_t) : bool :=
+  match o with OpBase o => protocol_hold_b s o | OpRegisterTree _ _ => true end.
+Fixpoint protocol_run_t_b (s : st) (ops : list op_t) : bool :=
+  match ops with
+  | [] => true
+  | o :: ops' => protocol_hold_t_b s o && protocol_run_t_b (apply_op_t s o) ops'
+  end.
